@@ -27,21 +27,15 @@ type xlim struct {
 type xbucket struct {
 	lim xlim
 	st  stateSpec
-	// classes of configurations the code mis-handles (set at creation/reset)
-	subns     bool // count >= 1, 0 <= period < count: refill interval below 1 ns (F23)
-	overtaken bool // taken > count >= 1 (F24)
 }
 
-// repaired = the reference with the repairs proposed for F23/F24 (interval at least 1 ns, taken
-// capped at count): what deviates from it on such a bucket is that finding's signature
 type xsys struct {
 	buckets  map[keySpec]*xbucket
 	defaults map[int]stateSpec
-	repaired bool
 }
 
-func newXSys(repaired bool) *xsys {
-	return &xsys{buckets: map[keySpec]*xbucket{}, defaults: map[int]stateSpec{}, repaired: repaired}
+func newXSys() *xsys {
+	return &xsys{buckets: map[keySpec]*xbucket{}, defaults: map[int]stateSpec{}}
 }
 
 func bi(x int64) *big.Int { return big.NewInt(x) }
@@ -88,17 +82,13 @@ func (l *xlim) allow(coin bool, now *big.Int, n int64) bool {
 	return false
 }
 
-func xnew(s stateSpec, now *big.Int, repaired bool) *xbucket {
+// xnew mirrors x_new_gen true true: interval Period/Count in whole ns, clamped to 1 ns when that is 0
+// and Period >= 0 (7348cd5bb); primed with min(taken, count) (4e20ebf0e)
+func xnew(s stateSpec, now *big.Int) *xbucket {
 	l := xlim{kind: xZero, burst: bi(int64(s.Max)), ival: bi(0), c: bi(0), last: bi(0)}
-	subns := s.Max > 0 && s.Period >= 0 && s.Period/int64(s.Max) == 0
-	overtaken := s.Max > 0 && s.Taken > s.Max
-	taken := int64(s.Taken)
-	if repaired && overtaken {
-		taken = int64(s.Max)
-	}
 	if s.Max > 0 {
 		i := s.Period / int64(s.Max) // Go division truncates toward zero, like Z.quot
-		if repaired && subns {
+		if i == 0 && s.Period >= 0 {
 			i = 1
 		}
 		if i <= 0 {
@@ -108,8 +98,8 @@ func xnew(s stateSpec, now *big.Int, repaired bool) *xbucket {
 		}
 		l.ival = bi(i)
 	}
-	b := &xbucket{lim: l, st: s, subns: subns, overtaken: overtaken}
-	b.lim.allow(false, now, taken)
+	b := &xbucket{lim: l, st: s}
+	b.lim.allow(false, now, int64(min(s.Taken, s.Max)))
 	return b
 }
 
@@ -121,7 +111,7 @@ func (s *xsys) bucket(now *big.Int, k keySpec) *xbucket {
 	if !ok {
 		return nil
 	}
-	b := xnew(d, now, s.repaired)
+	b := xnew(d, now)
 	s.buckets[k] = b
 	return b
 }
@@ -129,7 +119,7 @@ func (s *xsys) bucket(now *big.Int, k keySpec) *xbucket {
 func (s *xsys) setDefault(name int, st stateSpec) { s.defaults[name] = st }
 
 func (s *xsys) clone() *xsys {
-	c := newXSys(s.repaired)
+	c := newXSys()
 	for k, b := range s.buckets {
 		bb := *b // big.Int values are never mutated in place
 		c.buckets[k] = &bb
@@ -186,28 +176,8 @@ func allTrue(n int) []bool {
 
 // follow: the state after the observed outcome if some coin vector explains it (explained = true),
 // else the strict model's own outcome
-// involvesSubns: some bucket of the request has (or will be created with) a sub-ns interval
-func (s *xsys) involvesSubns(keys []keySpec) bool {
-	for _, k := range keys {
-		st, ok := s.defaults[k.Name]
-		if b, have := s.buckets[k]; have {
-			st, ok = b.st, true
-		}
-		if ok && st.Max > 0 && st.Period >= 0 && st.Period/int64(st.Max) == 0 {
-			return true
-		}
-	}
-	return false
-}
-
 func (s *xsys) follow(now *big.Int, keys []keySpec, n int64, ok bool, exc int) (ns *xsys, explained, early, xok bool, xexc int) {
-	cands := candidates(len(keys))
-	if s.repaired && s.involvesSubns(keys) {
-		// at 1 ns per token a whole missing token is never admitted by rounding (Properties:
-		// float_whole_token_1ns_refused); the repaired reference is strict there
-		cands = cands[:1]
-	}
-	for i, c := range cands {
+	for i, c := range candidates(len(keys)) {
 		t := s.clone()
 		xok, xexc := t.take(now, c, keys, n)
 		if xok == ok && xexc == exc {
@@ -249,7 +219,7 @@ func (s *xsys) set(now *big.Int, k keySpec, st stateSpec) bool {
 	if s.bucket(now, k) == nil {
 		return false
 	}
-	s.buckets[k] = xnew(st, now, s.repaired)
+	s.buckets[k] = xnew(st, now)
 	return true
 }
 
@@ -259,7 +229,7 @@ func (s *xsys) reset(now *big.Int, name int, st stateSpec) {
 	}
 	for k := range s.buckets {
 		if k.Name == name {
-			s.buckets[k] = xnew(st, now, s.repaired)
+			s.buckets[k] = xnew(st, now)
 		}
 	}
 }
